@@ -445,6 +445,7 @@ def _r4(w: World, rep: Report):
                               why='' if ok else f'call-depth violation does not raise {SCRIPT_ERR}')
     if n < 6:
         raise AnalysisError('fewer than 6 run_tape call sites in handlers')
+    _cumulative_budget(w, rep, fields)
     # R4b: no execution sub-tape starts with a smaller count than its parent (the budget is never reset)
     from .rules_c09 import _count_ge_parent, _site_tag
     for fname, fi in sorted(w.handlers.items()):
@@ -458,6 +459,61 @@ def _r4(w: World, rep: Report):
             rep.check('C07.R4b', f'functions.{fname}|{_site_tag(fi, s, sites)}|count-not-reset', ok, line=s.line,
                       file=RELF, why='' if ok else 'the sub-tape starts with a call-stack count below its parent\'s: '
                       'calls / evaluations made from inside it escape the call-stack limit')
+
+
+def _cumulative_budget(w: World, rep: Report, fields):
+    """R4c: drivers that run several tapes in sequence (run_auth_scripts) carry the call-stack count from
+    the tape that ran last into the next one: the count is read from the loop-carried tape variable at
+    construction time, never from a snapshot taken before the loop."""
+    rep.rule('C07.R4c', 'sequential drivers carry the call-stack count of the tape that ran last into the next '
+             'tape (cumulative budget; no snapshot from before the loop, no reset)', floor=1)
+    for fi in w.repo.all_funcs(['functions']):
+        if w.is_handler(fi) or fi.parent is not None:
+            continue
+        cfg = w.cfg(fi)
+        kinds = w.kinds(fi)
+        for s in tape_sites(w, fi):
+            if s.role() != 'exec' or not cfg.loops_around(s.node):
+                continue
+            e = s.field_expr('callstack_count', fields)
+            stores = s.attr_stores.get('callstack_count', [])
+            if e is None and stores:
+                e, at = stores[-1][1], stores[-1][0]
+            else:
+                at = s.node
+            ok, why = False, 'the tape built for each further script starts with the default count 0: the budget ' \
+                'spent by earlier scripts is forgotten'
+            if e is not None:
+                k = kinds.of(e, at)
+                ok, why = True, ''
+                for l in _resolve_unpack(k).leaves():
+                    l = _resolve_unpack(l)
+                    if l.tag == 'binop' and l.op == 'Add':
+                        l = l.left if l.left.tag == 'attr' else l.right
+                    if l.tag != 'attr' or l.attr != 'callstack_count':
+                        ok, why = False, f'the count handed to the next tape is not a tape\'s callstack_count ({l.tag})'
+                        break
+                    bl = list(l.base.leaves())
+                    carried = any(b.tag in ('new', 'cycle') for b in bl)
+                    if not carried:
+                        ok = False
+                        why = ('the count handed to the next tape is read from the tape(s) run before the loop only '
+                               '(a snapshot): calls made by the scripts run inside the loop are forgotten, so the '
+                               'limit is not enforced across the whole run')
+                        break
+            rep.check('C07.R4c', f'{fi.key}|loop-tape|count-carried', ok, line=s.line, file=RELF, why=why)
+
+
+def _resolve_unpack(k: K) -> K:
+    """`a, b = x, y` : the kind of b is the kind of y."""
+    seen = 0
+    while k.tag == 'unpack' and k.src.tag in ('tuple', 'list') and seen < 5:
+        elts = k.src.elts
+        if not (0 <= k.index < len(elts)):
+            break
+        k = elts[k.index]
+        seen += 1
+    return k
 
 
 def _strictly_larger(e, own) -> bool:
